@@ -145,7 +145,7 @@ def serveStale (f : Freshness) (now : Int) (stored : Entry) : Resp :=
   respWith stored.resp (servedHeader .stale f now stored.resp.header (parseCC stored.resp.header))
 
 /-- hasFieldValue: some field line of the field has a value -/
-def hasFieldValue (h : Header) (n : Str) : Bool := (Header.values h n).any (fun v => !v.isEmpty)
+def hasFieldValue (h : Header) (n : Str) : Bool := (Header.values h n).any (fun v => !(trimString v).isEmpty)
 
 /-- clientPreconditionForwarded: a precondition of the client's own decided the origin's answer because the
     stored response has no validator to put in its place. With a stored ETag the answer is about the stored
